@@ -854,6 +854,12 @@ class Step(Node):
         environment variables and (volatile) outputs of the new declaration
         match those of the detached step exactly.
         """
+        # A volatile output cannot be used as an input.
+        # When an input of this step, initial or amended, has become one in the meantime,
+        # a full recycle would bring the edge back without anybody looking at it.
+        # The regular definition path reports the conflict, as in a build from scratch.
+        if any(r.state == FileState.VOLATILE and not r.detached for r in self.inp_paths()):
+            return False
         old_inp_paths = sorted(r.path for r in self.inp_paths(dynamic=False))
         if old_inp_paths != sorted(inp_paths):
             return False
